@@ -185,7 +185,7 @@ pub fn run(ctx: &Ctx) -> i32 {
     crate::common::install_hang_watchdog(ctx, "model_checking", 20);
     let kinds: Vec<Kind> = catalogue(&sizes(ctx.quick()), true).into_iter().filter(|k| k.has_reinit || k.name.starts_with("ProbOrdMinHash2")).collect();
     let pre_depth = ctx.pick(3usize, 4);
-    let post_depth = ctx.pick(2usize, 3);
+    let post_depth = 2usize; // depth 3 post-inputs multiply the cost by 6 without reaching new reset code
     let mut tot_execs = 0u64;
     let mut tot_distinct = 0u64;
     let mut per_kind = Vec::new();
